@@ -1,5 +1,6 @@
 import DmrVerif.Gen.TranslPduSmall
 import DmrVerif.Model.Integrity
+import DmrVerif.Model.PduCsbk
 
 /-!
 The call boundary of `Gen/TranslPduSmall.lean` instantiated with the hand-written model: the library functions the translated
@@ -25,9 +26,17 @@ def modelExt : Ext where
   Golay2087_check := fun w => .ok (golay2087.check w)
   QuadraticResidue1676_generate := fun m => .ok (qr1676.gen m)
   QuadraticResidue1676_check := fun w => .ok (qr1676.check w)
-  numpy_array_to_int := fun a => .ok (Int.ofNat (bitsToNat a))
-  CRC8_calculate := fun d => liftCrc ((Crc.crc8 false d).map Int.ofNat)
+  numpy_array_to_int := fun a => .ok ((bitsToNat a : Nat) : Int)
+  CRC8_calculate := fun d => liftCrc ((Crc.crc8 false d).map (fun (n : Nat) => (n : Int)))
   CRC8_check := fun d c => liftCrc (Crc.crc8Check false d c)
+
+@[simp] theorem ext_golay_gen (m : Bits) : modelExt.Golay2087_generate m = .ok (golay2087.gen m) := rfl
+@[simp] theorem ext_golay_check (w : Bits) : modelExt.Golay2087_check w = .ok (golay2087.check w) := rfl
+@[simp] theorem ext_qr_gen (m : Bits) : modelExt.QuadraticResidue1676_generate m = .ok (qr1676.gen m) := rfl
+@[simp] theorem ext_qr_check (w : Bits) : modelExt.QuadraticResidue1676_check w = .ok (qr1676.check w) := rfl
+@[simp] theorem ext_np (a : Bits) : modelExt.numpy_array_to_int a = .ok ((bitsToNat a : Nat) : Int) := rfl
+@[simp] theorem ext_crc8 (d : Bits) : modelExt.CRC8_calculate d = liftCrc ((Crc.crc8 false d).map (fun (n : Nat) => (n : Int))) := rfl
+@[simp] theorem ext_crc8_check (d : Bits) (c : Int) : modelExt.CRC8_check d c = liftCrc (Crc.crc8Check false d c) := rfl
 
 /-- exceptions of the integrity model as Python exceptions -/
 def liftI : Integrity.IErr → PyErr
@@ -62,5 +71,23 @@ def slcObj (o : Integrity.SlcObj) : ShortLinkControl :=
   | .activity t1 t2 a1 a2 =>
     { slco := some (Gen.Integrity.slcoActivity : Nat), crc_8bit := some o.crc, ts1_activity_id := some (some t1),
       ts1_address := some (some a1), ts2_activity_id := some (some t2), ts2_address := some (some a2), crc_ok := some o.ok }
+
+/-- exceptions of the PDU codec models (C03) as Python exceptions -/
+def liftE : Err → PyErr
+  | .valueError => .value
+  | .assertionError => .assertion
+  | .notImplemented => .other "NotImplementedError"
+  | .keyError => .other "KeyError"
+  | .indexError => .index
+  | .other => .unsupported "other"
+
+def ofE {α β : Type} (f : α → β) : Except Err α → PyM β
+  | .ok v => .ok (f v)
+  | .error e => .error (liftE e)
+
+/-- the model's service options as the translated class's object -/
+def soObj (s : _root_.Dmr.ServiceOptions) : ServiceOptions :=
+  { is_emergency := some s.isEmergency, is_broadcast := some s.isBroadcast, is_privacy := some s.isPrivacy,
+    is_open_voice_call_mode := some s.isOvcm, priority_level := some (s.priority : Int), reserved := some s.reserved }
 
 end Dmr.Transl.PduSmall
